@@ -40,8 +40,8 @@ PLANS['C06'] = dict(level='exploration',
     rule="systematic: 18 base shapes x 12 reference prefixes x all segment lists over {'', '.', '..', 'a', 'b:c', '%2e'} up to 4 segments; random: base-shape pool x structured references (dot heavy, same scheme, RFC 5.4 examples, mutated); AddBaseUri / Ex (strict, compat) / ExMm, char and wchar_t, borrowed and owned inputs; distinct = distinct (base, reference, option)",
     assumptions=A_MODELS)
 PLANS['C07'] = dict(level='exploration',
-    runs=[R('hist', 'fast', dict(histories=600000), dict(histories=24000000), dict(objects_meaning_ok=100000)),
-          R('hist', 'asan', dict(histories=150000), dict(histories=6000000))],
+    runs=[R('hist', 'fast', dict(histories=1200000), dict(histories=24000000), dict(objects_meaning_ok=100000)),
+          R('hist', 'asan', dict(histories=300000), dict(histories=6000000))],
     rule="random histories of 3..12 steps over a pool of 8 objects: parse, make-owner, normalise(mask), resolve, create-reference, comparisons, free, with borrow tracking; every produced or modified object is recomposed, re-read by the automaton+splitter and compared with what it holds; distinct = distinct (operation, produced text)",
     assumptions=A_MODELS)
 PLANS['C08'] = dict(level='exploration',
@@ -50,24 +50,24 @@ PLANS['C08'] = dict(level='exploration',
     rule="systematic: 8 prefixes x all segment lists over 6 segment kinds up to 4 segments; random: structured URIs (dot heavy, relative, percent-triplets in both cases, upper-cased); all 64 masks for a sample and 8 masks (incl. undefined high bits) otherwise; borrowed and owned; default and custom manager; idempotence; mask-required sufficiency; distinct = distinct (input, mask, ownership)",
     assumptions=A_MODELS)
 PLANS['C09'] = dict(level='exploration',
-    runs=[R('normres', 'fast', dict(random=1500000), dict(random=40000000), dict(commutes=100000)),
-          R('normres', 'asan', dict(random=250000), dict(random=8000000))],
+    runs=[R('normres', 'fast', dict(random=4000000), dict(random=40000000), dict(commutes=100000)),
+          R('normres', 'asan', dict(random=600000), dict(random=8000000))],
     rule="systematic: 6 reference prefixes x 6 bases x all segment lists up to 4 segments; random: dot-heavy references without percent-encoded dot segments x base pool; both sentences of the property; distinct = distinct (reference, base)",
     assumptions=A_MODELS)
 PLANS['C10'] = dict(level='exploration',
-    runs=[R('shorten', 'fast', dict(random=1500000), dict(random=40000000), dict(round_trip_ok=100000, non_absolute_argument=100)),
-          R('shorten', 'asan', dict(random=300000), dict(random=8000000))],
+    runs=[R('shorten', 'fast', dict(random=3000000), dict(random=40000000), dict(round_trip_ok=100000, non_absolute_argument=100)),
+          R('shorten', 'asan', dict(random=600000), dict(random=8000000))],
     rule="systematic: 4x4 authorities x rooted/rootless x all segment lists over {'', a, b, b:c} up to 3 segments for source and base (462k pairs); random: overlap patterns, authority variants, mutated bases; both modes, default and custom manager; round trip through the library's resolver and through the model; distinct = distinct (source, base, mode)",
     assumptions=A_MODELS)
 PLANS['C11'] = dict(level='exploration',
-    runs=[R('equals', 'fast', dict(families=80000), dict(families=2000000), dict(agree_equal=10000, agree_different=100000)),
-          R('equals', 'asan', dict(families=20000), dict(families=400000)),
+    runs=[R('equals', 'fast', dict(families=200000), dict(families=2000000), dict(agree_equal=10000, agree_different=100000)),
+          R('equals', 'asan', dict(families=50000), dict(families=400000)),
           R('hist', 'fast', dict(histories=400000), dict(histories=16000000), dict(equals_agree_equal=1000, equals_agree_different=1000))],
     rule="near-duplicate families (single-component edits, NULL vs empty, '/a' vs 'a', same IPv6 address spelled differently): all ordered pairs, reflexivity, symmetry, transitivity, NULL arguments, arguments unchanged; plus pairs of library-produced objects from random histories (equal <=> identical text, also against a re-parse); distinct = distinct ordered pairs",
     assumptions=A_MODELS)
 PLANS['C12'] = dict(level='exploration',
-    runs=[R('owner', 'fast', dict(random=400000), dict(random=12000000), dict(hostkind_1=1000, hostkind_2=500, hostkind_3=500, hostkind_4=300)),
-          R('owner', 'asan', dict(random=150000), dict(random=4000000)),
+    runs=[R('owner', 'fast', dict(random=1000000), dict(random=12000000), dict(hostkind_1=1000, hostkind_2=500, hostkind_3=500, hostkind_4=300)),
+          R('owner', 'asan', dict(random=400000), dict(random=4000000)),
           R('hist', 'asan', dict(histories=150000), dict(histories=6000000), dict(ownership_transfers_checked=10000)),
           R('hist', 'fast', dict(histories=300000), dict(histories=12000000))],
     rule="URIs of all host kinds and component presence combinations; make-owner or normalise with any non-zero mask while the source text is mapped read-only; then the source is overwritten and unmapped / freed and the object read again; in histories non-owner results whose text lives in other objects are made owner and their lenders released; const arguments deep-snapshotted around every call; distinct = distinct (input, mask, operation)",
@@ -75,14 +75,14 @@ PLANS['C12'] = dict(level='exploration',
 PLANS['C13'] = dict(level='exploration',
     runs=[R('hist', 'fast', dict(histories=500000), dict(histories=16000000), dict(ledger_requests=100000)),
           R('hist', 'asan', dict(histories=120000), dict(histories=4800000)),
-          R('fault', 'fast', dict(inputs=60000), dict(inputs=2400000), dict(faulted_normalize=5000, faulted_addbase=5000)),
-          R('mm', 'fast', dict(cases=20000), dict(cases=240000), dict(incomplete_manager_rejected=1000)),
+          R('fault', 'fast', dict(inputs=150000), dict(inputs=2400000), dict(faulted_normalize=5000, faulted_addbase=5000)),
+          R('mm', 'fast', dict(cases=60000), dict(cases=240000), dict(incomplete_manager_rejected=1000)),
           R('query', 'fast', dict(random=80000, split_len=5, huge=0), dict(random=2000000, split_len=7, huge=0))],
     rule="histories in which every object lives under one of three managers (two recording ledgers, the default allocator watched by a libc interposer); ledger checked at the end of every history, libc allocations during custom-manager calls counted; incomplete managers (each slot and pairs NULL) must be rejected before any slot is touched; query functions with a ledger; the allocation-failure enumerator of C14 with the interposer watching for C-library calls on the failure paths; distinct = distinct produced texts / manager shapes",
     assumptions=A_MODELS + A_MEM)
 PLANS['C14'] = dict(level='fault_enumeration',
-    runs=[R('fault', 'asan', dict(inputs=60000), dict(inputs=2400000), dict(faulted_parse=5000, faulted_addbase=5000, faulted_removebase=5000, faulted_normalize=5000, faulted_makeowner=5000, faulted_dissect=5000, faulted_compose=500)),
-          R('fault', 'fast', dict(inputs=100000), dict(inputs=2400000))],
+    runs=[R('fault', 'asan', dict(inputs=150000), dict(inputs=2400000), dict(faulted_parse=5000, faulted_addbase=5000, faulted_removebase=5000, faulted_normalize=5000, faulted_makeowner=5000, faulted_dissect=5000, faulted_compose=500)),
+          R('fault', 'fast', dict(inputs=250000), dict(inputs=2400000))],
     rule="for each (call, input): the fault-free run yields N allocation requests; then every k=1..N is failed, in fail-once and fail-from-k-on modes, on fresh identical inputs; calls: parse, add-base (both options), remove-base (both modes), normalise (random mask, borrowed/owned), make-owner, dissect-query, compose-query-malloc; custom manager and (fast build) the default allocator through the libc interposer; distinct = distinct (call, input, options)",
     assumptions=A_MODELS + A_MEM)
 PLANS['C15'] = dict(level='exploration',
@@ -101,13 +101,13 @@ PLANS['C17'] = dict(level='exploration',
     rule="all arrangements of & = a % up to length 7 (quick) / 9 through the splitter with all options; random lists of 0..8 (key, value|NULL) over 1..255: chars-required, every capacity -1..required+2 with canaries/fences, malloc variants (default / custom manager), dissect(compose(L)) round trip; one item with key = value = 200 MB / 360 MB string for the INT_MAX guards (UBSan watches the arithmetic); distinct = distinct lists / strings",
     assumptions=A_MODELS + A_MEM)
 PLANS['C18'] = dict(level='exploration',
-    runs=[R('file', 'fast', dict(names=2000000), dict(names=32000000), dict(form_unix_absolute=10000, form_unix_relative=10000, form_drive_absolute=10000, form_unc=10000, form_windows_relative=10000)),
-          R('file', 'asan', dict(names=600000), dict(names=8000000))],
+    runs=[R('file', 'fast', dict(names=5000000), dict(names=32000000), dict(form_unix_absolute=10000, form_unix_relative=10000, form_drive_absolute=10000, form_unc=10000, form_windows_relative=10000)),
+          R('file', 'asan', dict(names=1500000), dict(names=8000000))],
     rule="random Unix filenames over 1..255 and Windows filenames with backslash separators only (drive-absolute, UNC with non-empty server, relative); to URI string into a buffer of exactly the documented size (fence / exact heap block), validity by the RFC automaton and by uriParseSingleUri, form per kind, back into a buffer of exactly the documented size, equality with the original; short input forms; distinct = distinct names",
     assumptions=A_MODELS + A_MEM)
 PLANS['C19'] = dict(level='exploration',
-    runs=[R('aw', 'asan', dict(cases=600000), dict(cases=20000000), dict(agree_parse=10000, agree_ops=10000, agree_strings=10000)),
-          R('aw', 'fast', dict(cases=1000000), dict(cases=32000000))],
+    runs=[R('aw', 'asan', dict(cases=1200000), dict(cases=20000000), dict(agree_parse=10000, agree_ops=10000, agree_strings=10000)),
+          R('aw', 'fast', dict(cases=2500000), dict(cases=32000000))],
     rule="each case runs the ...A function and, on the widened input, the ...W function back to back and compares return codes, error offsets, component offsets, host kinds and bytes, flags, recomposed text, chars-required/written, mask-required, resolve / create-reference / normalise / make-owner / equals results, escape / unescape offsets and text, query dissect / compose (counts, sizes, text), the four filename functions and uriParseIpFourAddress; wide buffers are exact-size in characters; distinct = distinct inputs",
     assumptions=A_MODELS + A_MEM)
 PLANS['C20'] = dict(level='exploration',
